@@ -382,12 +382,12 @@ Qed.
 
 Lemma accounted_put e q : accounted q -> accounted (put_quiet e q).
 Proof.
-  unfold accounted, put_quiet, push. destruct (shut q); simpl; lia.
+  unfold accounted, put_quiet, push. destruct (shut q); [lia|]. destruct (full q); simpl; lia.
 Qed.
 
 Lemma accounted_kill q : accounted q -> accounted (kill_q q).
 Proof.
-  unfold accounted, kill_q. destruct (shut q); simpl; lia.
+  unfold accounted, kill_q. destruct (shut q); [lia|]. destruct (full q); simpl; lia.
 Qed.
 
 Lemma drain_ok its unf :
@@ -660,7 +660,7 @@ Qed.
 
 (* ---- register *)
 
-Lemma register_inv r t s : inv s -> inv (fst (register r t s)).
+Lemma register_inv r t c s : inv s -> inv (fst (register r t c s)).
 Proof.
   intros Hi. unfold register. destruct (lookup r (queues s)) as [q|] eqn:L; simpl; [assumption|].
   apply notify_inv. destruct Hi as [G [K V B U]]. split.
@@ -702,7 +702,7 @@ Proof.
 Qed.
 
 Lemma drain_q_accounted qu : accounted qu ->
-  drain_q qu = (Q [] (shut qu) (unfinished qu - List.length (items qu)), true).
+  drain_q qu = (Q [] (shut qu) (unfinished qu - List.length (items qu)) (cap qu), true).
 Proof.
   intros H. unfold drain_q. now rewrite drain_ok.
 Qed.
@@ -734,7 +734,7 @@ Qed.
 
 (* what the old queue object looks like after _kill_resource + the drain loop *)
 Definition released (qu : queue) : queue :=
-  Q [] true (unfinished qu - List.length (items qu)).
+  Q [] true (unfinished qu - List.length (items qu)) (cap qu).
 
 (* the shape of deregister on a consistent registry: drop own subscriptions
    ([s1]), kill + drain + forget the queue ([mid]), then notify *)
@@ -766,8 +766,10 @@ Proof.
   assert (Ak : accounted (kill_q qu)) by now apply accounted_kill.
   rewrite (drain_q_accounted _ Ak).
   assert (Rel : Q [] (shut (kill_q qu)) (unfinished (kill_q qu) - List.length (items (kill_q qu)))
+                  (cap (kill_q qu))
                 = released qu).
-  { unfold released, kill_q. destruct (shut qu) eqn:Sh; simpl; rewrite ?Sh; reflexivity. }
+  { unfold released, kill_q. destruct (shut qu) eqn:Sh; [simpl; rewrite ?Sh; reflexivity|].
+    destruct (full qu); simpl; reflexivity. }
   rewrite Rel.
   eexists. repeat (split; [assumption || reflexivity|]). simpl.
   split; [|split; [reflexivity|split; [reflexivity|split; [reflexivity|split]]]].
@@ -801,7 +803,7 @@ Proof.
   assert (Aq : accounted qu) by (eapply Forall_nth_error; eassumption).
   unfold accounted in Aq. rewrite It in Aq. simpl in Aq.
   assert (forall u, List.length rest <= u ->
-            inv (St (subs s) (watches s) (queues s) (upd q (fun _ => Q rest (shut qu) u) (heap s)))) as Hgen.
+            inv (St (subs s) (watches s) (queues s) (upd q (fun _ => Q rest (shut qu) u (cap qu)) (heap s)))) as Hgen.
   { intros u Hu. split; [destruct G; constructor; assumption|].
     constructor; simpl; try assumption.
     - intros r' q' H. rewrite upd_length. eauto.
@@ -1040,7 +1042,7 @@ Qed.
 (* queue object [q] belongs to a current subscriber of [n] and is not shut down *)
 Definition live_target (s : state) (n q : nat) : Prop :=
   exists r qu, In (n, r) (subs s) /\ lookup r (queues s) = Some q /\
-               nth_error (heap s) q = Some qu /\ shut qu = false.
+               nth_error (heap s) q = Some qu /\ shut qu = false /\ full qu = false.
 
 Lemma notify_spec n t s : inv s ->
   let s' := notify n t s in
@@ -1053,11 +1055,12 @@ Proof.
   intros [[_ _ N1 _] [_ V _ _]] s'. repeat (split; [reflexivity|]).
   split; [apply fold_upd_length|].
   intros q qu Hq. unfold s'. rewrite notify_nth by assumption. rewrite Hq. split.
-  - intros (r & qu' & Hr & L & Hq' & Sh). rewrite Hq in Hq'. injection Hq' as <-.
+  - intros (r & qu' & Hr & L & Hq' & Sh & Fu). rewrite Hq in Hq'. injection Hq' as <-.
     assert (M : mem q (active_queues n s) = true) by (apply active_mem; eauto).
-    rewrite M. simpl. unfold put_quiet. now rewrite Sh.
+    rewrite M. simpl. unfold put_quiet. now rewrite Sh, Fu.
   - intros Hn. destruct (mem q (active_queues n s)) eqn:M; [|reflexivity].
     simpl. unfold put_quiet. destruct (shut qu) eqn:Sh; [reflexivity|].
+    destruct (full qu) eqn:Fu; [reflexivity|].
     exfalso. apply Hn. apply active_mem in M. destruct M as (r & Hr & L).
     exists r, qu. auto.
 Qed.
@@ -1126,7 +1129,7 @@ Proof.
         destruct (Nat.eqb q0 q) eqn:Eqq; [|assumption]. apply Nat.eqb_eq in Eqq. congruence. }
       destruct (Hn q qu Hmid) as [H1 H2].
       assert (LT : live_target mid r q <-> live_target s r q).
-      { split; intros (x & qu' & Hx & Lx & Hq' & Sh).
+      { split; intros (x & qu' & Hx & Lx & Hq' & Sh & Fu).
         - apply Hsub in Hx. exists x, qu'. rewrite Hmid in Hq'. injection Hq' as <-.
           assert (x <> r) by (intros ->; contradiction).
           rewrite Hqm, lookup_remove_key_neq in Lx by assumption. auto.
@@ -1146,8 +1149,8 @@ Proof.
 Qed.
 
 (* register of an already registered resource returns its queue, notifies nobody *)
-Theorem register_again r t s q :
-  lookup r (queues s) = Some q -> step (ORegister r t) s = (s, RQueue q).
+Theorem register_again r t c s q :
+  lookup r (queues s) = Some q -> step (ORegister r t c) s = (s, RQueue q).
 Proof. intros H. simpl. unfold register. now rewrite H. Qed.
 
 (* every resource has its own queue object *)
@@ -1158,3 +1161,64 @@ Proof.
   intros s La Lb. destruct (reachable_inv ops) as [_ [_ V _ _]].
   apply lookup_In in La, Lb. eapply NoDup_map_snd_inj; eassumption.
 Qed.
+
+(* ---- bounded (caller-supplied) queues: the full-queue cases spelled out *)
+
+(* a subscriber whose queue is full gets nothing from this notification (the
+   QueueFull is swallowed for that subscriber only) *)
+Theorem notify_full_skipped ops n t q qu :
+  let s := run ops empty in
+  nth_error (heap s) q = Some qu -> full qu = true ->
+  nth_error (heap (fst (step (ONotify n t) s))) q = Some qu.
+Proof.
+  intros s Hq Fu. destruct (notify_exact ops n t) as (_ & _ & _ & _ & _ & H).
+  apply (H q qu Hq). intros (r & qu' & _ & _ & Hq' & _ & Fu'). fold s in Hq'.
+  rewrite Hq in Hq'. injection Hq' as <-. congruence.
+Qed.
+
+(* kill_resource always leaves the resource's queue shut down — also when it is
+   full and the Kill marker cannot be enqueued *)
+Lemma kill_q_shut qu : shut (kill_q qu) = true.
+Proof. unfold kill_q. destruct (shut qu) eqn:Sh; [assumption|]. destruct (full qu); reflexivity. Qed.
+
+Lemma kill_q_items qu :
+  items (kill_q qu) = if shut qu || full qu then items qu else EKill :: items qu.
+Proof. unfold kill_q. destruct (shut qu); [reflexivity|]. destruct (full qu); reflexivity. Qed.
+
+Theorem kill_shuts_down r s q qu :
+  lookup r (queues s) = Some q -> nth_error (heap s) q = Some qu ->
+  let s' := fst (step (OKill r) s) in
+  snd (step (OKill r) s) = RNone /\
+  nth_error (heap s') q = Some (kill_q qu) /\ shut (kill_q qu) = true /\
+  items (kill_q qu) = (if shut qu || full qu then items qu else EKill :: items qu) /\
+  (forall q', q' <> q -> nth_error (heap s') q' = nth_error (heap s) q') /\
+  subs s' = subs s /\ watches s' = watches s /\ queues s' = queues s.
+Proof.
+  intros L Hq. simpl. unfold kill_resource. rewrite L. simpl.
+  split; [reflexivity|]. split; [now rewrite nth_error_upd, Nat.eqb_refl, Hq|].
+  split; [apply kill_q_shut|]. split; [apply kill_q_items|].
+  split; [|auto]. intros q' N. rewrite nth_error_upd.
+  destruct (Nat.eqb q q') eqn:E; [apply Nat.eqb_eq in E; congruence|reflexivity].
+Qed.
+
+(* deregister with a FULL own queue: still shut down, drained, and nothing left
+   counted as unfinished on account of undelivered items *)
+Theorem deregister_full_released ops r t q qu :
+  let s := run ops empty in
+  lookup r (queues s) = Some q -> nth_error (heap s) q = Some qu -> full qu = true ->
+  let s' := fst (step (ODeregister r t) s) in
+  nth_error (heap s') q = Some (Q [] true (unfinished qu - List.length (items qu)) (cap qu)) /\
+  step (OGet q) s' = (s', Raised QueueShutDown).
+Proof.
+  intros s L Hq _ s'. destruct (deregister_releases ops r t) as (_ & _ & _ & _ & _ & H & _).
+  fold s in H. specialize (H q qu L Hq). fold s' in H. split; [exact H|].
+  exact (released_get_raises s' q qu false H).
+Qed.
+
+(* registering a new resource never fails, whatever state its subscribers' queues are in *)
+Theorem register_fresh r t c s :
+  lookup r (queues s) = None ->
+  step (ORegister r t c) s =
+  (notify r t (St (subs s) (watches s) ((r, List.length (heap s)) :: queues s) (heap s ++ [new_queue c])),
+   RQueue (List.length (heap s))).
+Proof. intros H. simpl. unfold register. now rewrite H. Qed.
